@@ -62,6 +62,11 @@ def main():
         f = ctx.facts(cfg)
         for name, c in sorted(f.crates.items()):
             rep.unit(cfg, name, len(c.built))
+            # fail closed: a body the extractor could not read is a blind spot for every rule
+            if c.j.get('built_stolen') or c.j.get('elab_stolen'):
+                rep.rule('engine', 'every rule evaluates without an internal error')
+                rep.bad('engine', 'facts-incomplete|%s@%s' % (name, cfg), 'MIR of %s (built) / %s bodies (elaborated) of crate %s could not be read'
+                        % (c.j.get('built_stolen'), c.j.get('elab_stolen'), name))
     if args.tier == 'thorough' and hasattr(mod, 'thorough_extra'):
         try:
             mod.thorough_extra(ctx, rep)
